@@ -157,10 +157,12 @@ def run(tier, seed, t0):
             lambda: ob_mul(CRATE, "u256_mul", 4), lambda: ob_mul(CRATE, "u320_mul", 5),
             lambda: ob_addsub(CRATE, "u256_add", 4, False), lambda: ob_addsub(CRATE, "u256_sub", 4, True), lambda: ob_cmp(CRATE)]
     jobs += framing_jobs(tier)
+    jobs += [lambda: ob_monomial(CRATE, "mod_n_inv_exponent", "mod_n_inv", [("a", 0)], {"mod_n_mul": "mul"}, {1: 0}, ({"a": N9 - 2}, 0),
+                                 functions=["gm_sm9::fields::mod_n_inv", "gm_sm9::fields::mod_n_pow"])]
     res = run_parallel(jobs, nproc=14)
     res += kani.run_harnesses("C16", kani_specs(tier), per_timeout=600)
     return finish("C16", tier, seed, "model_checking", res, t0,
-                  assumptions=["mod_n_inv is x^(N-2) by square-and-multiply over mod_n_mul (exponent tracking is C13's obligation); here it is an arbitrary function in the data-flow harness",
+                  assumptions=["mod_n_inv is an arbitrary function in the Kani data-flow harness; that it computes x^(N-2) over mod_n_mul is the monomial obligation L2_gmsm9_mod_n_inv_exponent",
                                "SM3 is an arbitrary function in the framing harnesses (C01)", "Annex values are not recomputed by the solver (concrete pairing-free check lives in the replay reference)"],
                   explanation="mod_n_from_hash decided for ALL 320-bit Ha over integers from the MIR (u256 arithmetic by its L1 statements); H1/H2 byte framing and the extraction data-flow decided by Kani on the real code with logging stubs.",
                   replayer=__import__("c13_l4").replayer, rule="10 engine-M obligations (hash-to-range, mod-N add/sub/Barrett multiplication, L1 limb arithmetic) + 10 Kani harnesses; all distinct")
